@@ -397,10 +397,10 @@ def gen_parse(rng, cfg):
     if op['nodekind'] == 'int' and rng.random() < 0.2:
         op['nodetype_str'] = True                 # the same digit labels, this time read as strings
     x = rng.random()
-    if x < 0.15:
+    if x < 0.15 or (0.4 <= x < 0.46):             # the upper band: a conversion failure in a keys=True read
         op['bad_row'] = rng.randrange(len(rows))
         op['bad_field'] = rng.choice(['node', 'node2', 'time', 'end', 'end'] if op['nodekind'] == 'int' and not op.get('nodetype_str') else ['time', 'end'])
-    elif x < 0.4:
+    if 0.15 <= x < 0.46:
         op['keys'] = True
         op['via'] = 'read'
         if nonascii:
